@@ -2,6 +2,7 @@
 //   pool_harness explore NW NT CLIENT PB MAXRUNS OUT   bounded-preemption DFS over schedules
 //   pool_harness replay  NW NT CLIENT SCHEDULE OUT     force one schedule ("0,1,1,..")
 //   pool_harness random  NW NT CLIENT SEED RUNS OUT    seeded random schedules
+//   pool_harness stress  NW NT CLIENT RUNS OUT         free-running real threads, outcome events only
 // CLIENT: P1 (add all, stop, join)  P2 (block-constructor pattern)  P3 (pinned-test pattern).
 // OUT receives the ndjson traces of all executions, each introduced by a Reset event and closed by
 // an End event carrying the schedule that produced it.
@@ -53,10 +54,23 @@ static void report_and_exit() {
   _exit(0);
 }
 
+// free-running (stress) mode: outcome events are serialised by this lock, which is held across
+// the append, so their order is consistent with the causal order of the logged transitions
+static bool g_free = false;
+static std::mutex g_evm;
+static std::string g_freetrace;
+
+static void evs(const std::string &s) {
+  if (g_free) {
+    std::lock_guard<std::mutex> lg(g_evm);
+    g_freetrace += "{" + s + ",\"t\":-1}\n";
+  } else
+    ds::event(s);
+}
 static void ev(const char *e, int task = -1) {
   std::string s = std::string("\"e\":\"") + e + "\"";
   if (task >= 0) s += ",\"task\":" + std::to_string(task);
-  ds::event(s);
+  evs(s);
 }
 
 static void scenario(int nw, int nt, const std::string &client) {
@@ -106,7 +120,7 @@ static void scenario(int nw, int nt, const std::string &client) {
     cv2.wait(ul, [&]() { return (size_t)done == parts.size(); });
     std::string s = "\"e\":\"AllDone\",\"slots\":[";
     for (size_t k = 0; k < parts.size(); k++) s += (k ? "," : "") + std::to_string(parts[k]);
-    ds::event(s + "]");
+    evs(s + "]");
     ev("StopCall");
     pool.stop_all_workers();
     pool.wait_workers();
@@ -186,6 +200,44 @@ static RunResult run_child(int nw, int nt, const std::string &client, const std:
   return r;
 }
 
+static RunResult run_free(int nw, int nt, const std::string &client) {
+  int fd[2];
+  if (pipe(fd)) exit(2);
+  pid_t pid = fork();
+  if (pid == 0) {
+    close(fd[0]);
+    g_pipe = fd[1];
+    g_free = true;
+    alarm(30);
+    scenario(nw, nt, client);
+    // join returned for every worker: each worker thread has exited (after the StopCall event)
+    for (int w = 1; w <= nw; w++) g_freetrace += "{\"e\":\"exit\",\"t\":" + std::to_string(w) + "}\n";
+    // the JoinReturned event was appended by scenario() before the exit events: move it last
+    size_t p = g_freetrace.find("{\"e\":\"JoinReturned\"");
+    if (p != std::string::npos) {
+      size_t e = g_freetrace.find('\n', p);
+      std::string jr = g_freetrace.substr(p, e - p + 1);
+      g_freetrace.erase(p, e - p + 1);
+      g_freetrace += jr;
+    }
+    wr(g_freetrace.data(), g_freetrace.size());
+    _exit(0);
+  }
+  close(fd[1]);
+  RunResult r;
+  char tmp[65536];
+  ssize_t k;
+  while ((k = read(fd[0], tmp, sizeof tmp)) > 0) r.trace.append(tmp, k);
+  close(fd[0]);
+  int st = 0;
+  waitpid(pid, &st, 0);
+  if (WIFSIGNALED(st)) {
+    if (WTERMSIG(st) == SIGALRM) r.timeout = true;
+    else r.crashed = true;
+  }
+  return r;
+}
+
 static std::string sched_str(const std::vector<ds::Decision> &d) {
   std::string s;
   for (size_t i = 0; i < d.size(); i++) s += (i ? "," : "") + std::to_string(d[i].chosen);
@@ -228,6 +280,17 @@ int main(int argc, char **argv) {
     FILE *out = fopen(argv[7], "w");
     for (long i = 0; i < runs; i++) {
       RunResult r = run_child(nw, nt, client, {}, ds::POL_RANDOM, seed * 1000003u + i);
+      emit(out, nw, nt, client, r, i);
+    }
+    fclose(out);
+    printf("{\"runs\":%ld}\n", runs);
+    return 0;
+  }
+  if (mode == "stress") {
+    long runs = atol(argv[5]);
+    FILE *out = fopen(argv[6], "w");
+    for (long i = 0; i < runs; i++) {
+      RunResult r = run_free(nw, nt, client);
       emit(out, nw, nt, client, r, i);
     }
     fclose(out);
